@@ -150,6 +150,27 @@ def firstMutUnwrap {β : Type} (l : List β) (f : β → β) : Except GErr (List
 def lastMutUnwrap {β : Type} (l : List β) (f : β → β) : Except GErr (List β) :=
   if l.isEmpty then .error .unwrapNone else .ok (l.modify (l.length - 1) f)
 
+/-! ### `step_by`, `iter_mut().enumerate().for_each` with an accumulator (grid/alignment.rs `align_tracks`) -/
+
+/-- `it.step_by(n)` (`n > 0`): the elements at positions 0, n, 2n, …; `k` = how many elements to skip before the next one taken -/
+def stepByAux {β : Type} (n : Nat) : Nat → List β → List β
+  | _, [] => []
+  | 0, x :: rest => x :: stepByAux n (n - 1) rest
+  | k + 1, _ :: rest => stepByAux n k rest
+
+def stepBy {β : Type} (n : Nat) (l : List β) : List β := stepByAux n 0 l
+
+/-- `l.iter_mut().enumerate().for_each(|(i, x)| …)` whose body updates the element and outer locals (`σ`): position, state
+before, element ↦ new element, state after; answers the new list and the final state -/
+def mapIdxAccumFrom {β σ : Type} (f : Nat → σ → β → β × σ) : Nat → List β → σ → List β × σ
+  | _, [], s => ([], s)
+  | i, x :: rest, s =>
+    let r := f i s x
+    let rs := mapIdxAccumFrom f (i + 1) rest r.2
+    (r.1 :: rs.1, rs.2)
+
+def mapIdxAccum {β σ : Type} (f : Nat → σ → β → β × σ) (l : List β) (s : σ) : List β × σ := mapIdxAccumFrom f 0 l s
+
 /-! ### iterators that may be infinite -/
 
 /-- the answers of successive `next()` calls -/
